@@ -842,7 +842,7 @@ fn c17_faults_per_sample(t: Tier) -> usize {
     2 * (bits + 4)
 }
 pub fn runs_c17(t: Tier) -> usize {
-    1 + c17_sessions(t) + c17_samples(t) * c17_faults_per_sample(t) + 1
+    1 + c17_sessions(t) + c17_samples(t) * c17_faults_per_sample(t) + 1 + C17_PAR
 }
 
 /// klen = 1 and an r_B for which the derived key byte is 00 (probability 2^-8 per r_B): GM/T 0044.3
@@ -1036,8 +1036,56 @@ fn kex_session(p: &mut Prng, w: &mut World, plan: &KexPlan, fixed: Option<(&str,
     w.exec(json!({"op":"sm9.kex.end","ska":ska,"skb":skb,"ra_sent":"a.store.ra","ra_delivered":"m1.ra","rb_sent":rbs,"rb_delivered":rbd}));
 }
 
+/// Two honest exchanges under two master keys advance in lock step; the two calls of each step are
+/// made by two simulated caller threads.
+fn c17_concurrent(p: &mut Prng, w: &mut World) {
+    let klen = p.range(1, 64);
+    for pfx in ["u", "v"] {
+        let (ida, idb) = (sm9_id(p), sm9_id(p));
+        if !setup_keys_ex(p, w, pfx, "exch", &ida, None, false) {
+            return;
+        }
+        w.exec(set(&format!("{pfx}.idb"), &idb));
+        let r = w.exec(json!({"op":"sm9.extract","impl":"ref","kind":"exch","k":format!("{pfx}.k"),"pub":format!("{pfx}.pub"),"id":format!("{pfx}.idb"),"out":format!("{pfx}.ukb")}));
+        if r.get("class").and_then(|c| c.as_str()) != Some("Ok") {
+            return;
+        }
+    }
+    let step = |pfx: &str, k: usize, p: &mut Prng| -> Value {
+        let s = |x: &str| format!("{pfx}.{x}");
+        match k {
+            1 => json!({"op":"sm9.kex.1a","impl":"lib","ppube":s("pub"),"idb":s("idb"),"out_ra":s("m1.ra"),"out_r":s("a.r"),"rng":rng_json(&uniform_script(p, 1))}),
+            2 => json!({"op":"sm9.kex.1b","impl":"lib","ppube":s("pub"),"ida":s("id"),"idb":s("idb"),"de":s("ukb"),"ra":s("m1.ra"),"klen":klen,"out_rb":s("m2.rb"),"out_sk":s("b.sk"),"rng":rng_json(&uniform_script(p, 1))}),
+            _ => json!({"op":"sm9.kex.2a","impl":"lib","ppube":s("pub"),"ida":s("id"),"idb":s("idb"),"de":s("uk"),"r":s("a.r"),"ra":s("m1.ra"),"rb":s("m2.rb"),"klen":klen,"out_sk":s("a.sk"),"conform":true}),
+        }
+    };
+    for k in 1..=3 {
+        let (a, b) = (step("u", k, p), step("v", k, p));
+        w.exec(par(a, b, &par_order(p)));
+        if !(w.slots.contains_key("u.m1.ra") && w.slots.contains_key("v.m1.ra")) || (k >= 2 && !(w.slots.contains_key("u.m2.rb") && w.slots.contains_key("v.m2.rb"))) {
+            break;
+        }
+    }
+    for pfx in ["u", "v"] {
+        let s = |x: &str| format!("{pfx}.{x}");
+        let opt = |w: &World, n: String| -> Value { if w.slots.contains_key(&n) { json!(n) } else { Value::Null } };
+        if w.slots.contains_key(&s("m1.ra")) {
+            let (ska, skb, rb) = (opt(w, s("a.sk")), opt(w, s("b.sk")), opt(w, s("m2.rb")));
+            w.exec(json!({"op":"sm9.kex.end","ska":ska,"skb":skb,"ra_sent":s("m1.ra"),"ra_delivered":s("m1.ra"),"rb_sent":rb.clone(),"rb_delivered":rb}));
+        }
+    }
+}
+
+const C17_PAR: usize = 10;
+
 pub fn run_c17(p: &mut Prng, t: Tier, i: usize, sink: &mut Sink) {
     let mut w = World::new();
+    if i >= runs_c17(t) - C17_PAR {
+        c17_concurrent(p, &mut w);
+        sink.done(w);
+        return;
+    }
+    let t_runs_without_par = runs_c17(t) - C17_PAR;
     if i == 0 {
         let plan = KexPlan { impl_a: "lib", impl_b: "lib", tamper: None, conform: true };
         kex_session(
@@ -1054,7 +1102,7 @@ pub fn run_c17(p: &mut Prng, t: Tier, i: usize, sink: &mut Sink) {
         sink.done(w);
         return;
     }
-    if i + 1 == runs_c17(t) {
+    if i + 1 == t_runs_without_par {
         rare_zero_key_run(p, &mut w);
         sink.done(w);
         return;
